@@ -144,10 +144,35 @@ def rule_env(ctx, py):
     f = py.fn("value_processing.get_value_in_env")
     found = []
 
+    truthy = []
+
+    def expand(e, facts):
+        """`value.get(K, D)` is `value[K] if K in value else D`; `A or B` selects on truthiness, not on membership"""
+        if isinstance(e, ast.Call) and isinstance(e.func, ast.Attribute) and e.func.attr == "get" and \
+                pyfe.src(e.func.value) == "value" and 1 <= len(e.args) <= 2 and not e.keywords:
+            k = pyfe.src(e.args[0])
+            out = [("value[%s]" % k, facts | {("%s in value" % k, True)})]
+            rest = facts | {("%s in value" % k, False)}
+            if len(e.args) == 2:
+                out += expand(e.args[1], rest)
+            else:
+                out.append(("None", rest))
+            return out
+        if isinstance(e, ast.BoolOp) and isinstance(e.op, ast.Or):
+            truthy.append(e)
+            return [(pyfe.src(e), facts)]
+        if isinstance(e, ast.IfExp):
+            return expand(e.body, facts | set(pya.atoms(e.test, True))) + expand(e.orelse, facts | set(pya.atoms(e.test, False)))
+        return [(pyfe.src(e), facts)]
+
     class C(pya.PyFacts):
         def ret(self, s, cfg):
-            found.append((pyfe.src(s.src.value), cfg))
+            for r_, fc in expand(s.src.value, set(cfg)):
+                found.append((r_, frozenset(fc)))
     ir.Engine(C(), "must").run(ir.py_to_ir(f.body))
+    for e in truthy:
+        ctx.violation(R, e, f._qual, pyfe.src(e)[:80], "the entry is selected by truthiness (`or`), not by membership: a falsy "
+                      "entry of the environment (0, False, a zero amount) falls through to 'default'")
     want = {"value[environment]": [("isdict(value)", True), ("environment in list(value)", True)],
             "value['default']": [("isdict(value)", True), ("environment in list(value)", False),
                                  ("'default' in list(value)", True)],
@@ -155,6 +180,8 @@ def rule_env(ctx, py):
                         ("'default' in list(value)", False)],
             "value": [("isdict(value)", False)]}
     got = {r: c for r, c in found}
+    if truthy:
+        return
     ctx.need(set(got) == set(want), R, "get_value_in_env: returns %s not recognised" % sorted(got))
     for r, need in want.items():
         alt = [(a.replace("list(value)", "value"), p) for a, p in need]
@@ -175,4 +202,6 @@ def run(ctx):
     for i in ctx.insts[n0:]:
         i.rule = "C13.RADIX"
     ctx.floors = {k: v for k, v in ctx.floors.items() if k.startswith("C13")}
+    from .. import truth
+    truth.rule(ctx, "C13.TRUTH", ctx.py, ["rdsystem", "value_processing"], floor=30)
     ctx.assume("the values themselves are not decided; environment indices are range-checked by C20.EXTIDX")
